@@ -50,6 +50,46 @@ def stackErr : Err := .script .stack "Stack overflow while evaluating expression
   | (.val .ok v, st) => k v st
   | r => r
 
+/-- argument/element lists. -/
+@[inline] def bindVals (r : Res N) (k : List (Value N) → State N → Res N) : Res N :=
+  match r with
+  | (.vals vs, st) => k vs st
+  | r => r
+
+/-- CHECK_RESULT_LOOP: `return` leaves the loop with its value, `break` ends it with Empty, everything else iterates. -/
+@[inline] def loopStep (r : Res N) (next : State N → Res N) : Res N :=
+  match r with
+  | (.val .ret v, st) => (.val .ret v, st)
+  | (.val .brk _, st) => (.val .ok .empty, st)
+  | (.val _ _, st) => next st
+  | r => r
+
+/-- `ExpressionResult → Value`: the flow-control code is dropped (vmops.hpp:112, expression.cpp:784-789). -/
+@[inline] def bindAny (r : Res N) (k : Value N → State N → Res N) : Res N :=
+  match r with
+  | (.val _ v, st) => k v st
+  | r => r
+
+@[inline] def bindRef (r : Res N) (kref : Value N → String → State N → Res N) (kno : State N → Res N) : Res N :=
+  match r with
+  | (.ref p i, st) => kref p i st
+  | (.noref, st) => kno st
+  | r => r
+
+/-- expression.cpp:1055-1066: the value of the try body is discarded, a script error runs the handler. -/
+@[inline] def catchScript (r : Res N) (k : State N → Res N) : Res N :=
+  match r with
+  | (.val .ok _, st) => (.val .ok .empty, st)
+  | (.err (.script _ _), st) => k st
+  | r => r
+
+/-- a callee expression must produce a plain value. -/
+@[inline] def bindCallee (r : Res N) (k : Value N → State N → Res N) : Res N :=
+  match r with
+  | (.val .ok v, st) => k v st
+  | (.val _ _, st) => (.err (.unmodelled "flow control in callee position"), st)
+  | r => r
+
 @[inline] def liftE (r : Except Err (Value N) × State N) : Res N :=
   match r with
   | (.ok v, st) => (.val .ok v, st)
@@ -81,7 +121,7 @@ def bitNot (v : Value N) : Except Err (Value N) :=
     | some i => .ok (.num (Num.ofInt (-i - 1)))
     | none => .error (.unmodelled "~ beyond int")
   | .str s => if s == "" then .ok (.num (Num.ofInt (-1))) else .error (.unmodelled "~ string")
-  | _ => .error (.unmodelled "~ object")
+  | _ => .error (.script .tonumber "Can't convert object to a floating point number.")
 
 def isCallbackNative (name : String) : Option IterKind :=
   match name with
@@ -96,306 +136,320 @@ def cbTruth (v : Value N) : Option Bool :=
   | .str s => if s == "" then some false else none
   | _ => none
 
+/-- expression.cpp:765-779: with `init_dict`, an Empty slot on the path of an assignment is first filled with a new dictionary. -/
+def refInit (initDict : Bool) (vparent : Value N) (vindex : String) (st1 : State N) : Except Err (State N) :=
+  if initDict then
+    match (if (if vparent.isObject then hasOwnField st1 vparent vindex else true) then getField st1 vparent vindex else .ok .empty) with
+    | .error e => .error e
+    | .ok .empty => setField (st1.alloc (.dict [])).2 vparent vindex (.dict (st1.alloc (.dict [])).1)
+    | .ok _ => .ok st1
+  else .ok st1
+
+/-- expression.cpp:764-782: the parent of an indexer reference. -/
+def refParent (initDict : Bool) (vparent : Value N) (vindex : String) (st1 : State N) : Res N :=
+  match refInit initDict vparent vindex st1 with
+  | .error e => (.err e, st1)
+  | .ok st2 => liftE (getField st2 vparent vindex, st2)
+
+/-- expression.cpp:622-653: combine with the old value for `+=` …. -/
+def assignValue (parent : Value N) (index : String) (op : SetOp) (v : Value N) (st2 : State N) : Except Err (Value N) × State N :=
+  match op.bin with
+  | none => (.ok v, st2)
+  | some bop =>
+    match getField st2 parent index with
+    | .ok old => binop bop old v st2
+    | .error e => (.error e, st2)
+
+/-- expression.cpp:622-655: …, then store. -/
+def assign (parent : Value N) (index : String) (op : SetOp) (v : Value N) (st2 : State N) : Res N :=
+  match (assignValue parent index op v st2).1 with
+  | .error e => (.err e, (assignValue parent index op v st2).2)
+  | .ok nv =>
+    match setField (assignValue parent index op v st2).2 parent index nv with
+    | .ok st4 => (.val .ok .empty, st4)
+    | .error e => (.err e, (assignValue parent index op v st2).2)
+
 def isFunction (v : Value N) : Bool := match v with | .fn _ | .native _ => true | _ => false
+
+/-! Each task is one step function over `ev`, the evaluator for the nested evaluations (open recursion): `eval` ties the
+    knot with `ev := eval fuel`.  Theorems about all tasks are proved per step function from a hypothesis on `ev`. -/
+
+def stepExprs (ev : Frame N → Task N → State N → Res N) (fr : Frame N) (es : List (Expr N)) (acc : List (Value N)) (st : State N) : Res N :=
+  match es with
+  | [] => (.vals acc.reverse, st)
+  | e :: es => bindV (ev fr (.expr e) st) fun v st1 => ev fr (.exprs es (v :: acc)) st1
+
+def stepBlock (ev : Frame N → Task N → State N → Res N) (fr : Frame N) (es : List (Expr N)) (last : Value N) (st : State N) : Res N :=
+  match es with
+  | [] => (.val .ok last, st)
+  | e :: es => bindV (ev fr (.expr e) st) fun v st1 => ev fr (.block es v) st1     -- expression.cpp:523-527
+
+def stepWhile (ev : Frame N → Task N → State N → Res N) (fr : Frame N) (c body : Expr N) (st : State N) : Res N :=
+  -- expression.cpp:708-719
+  bindV (ev fr (.expr c) st) fun cv st1 =>
+    if !truthy st1 cv then (.val .ok .empty, st1)
+    else loopStep (ev fr (.expr body) st1) fun st2 => ev fr (.whileL c body) st2
+
+def stepForArr (ev : Frame N → Task N → State N → Res N) (fr : Frame N) (k : String) (a : Addr) (i : Nat) (body : Expr N) (st : State N) : Res N :=
+  -- vmops.hpp:185-189
+  match st.arr? a with
+  | none => (.err (.internal "forArr"), st)
+  | some xs =>
+    if i ≥ xs.length then (.val .ok .empty, st)
+    else loopStep (ev fr (.expr body) (localsSet st fr k (xs.getD i .empty))) fun st2 =>
+      ev fr (.forArr k a (i + 1) body) st2
+
+def stepForKeys (ev : Frame N → Task N → State N → Res N) (fr : Frame N) (k v : String) (d : Addr) (keys : List String) (body : Expr N) (st : State N) : Res N :=
+  match keys with
+  | [] => (.val .ok .empty, st)
+  | key :: keys =>
+    -- vmops.hpp:204-209
+    let cur := match st.dict? d with | some kvs => (kvGet key kvs).getD .empty | none => .empty
+    loopStep (ev fr (.expr body) (localsSet (localsSet st fr k (.str key)) fr v cur)) fun st2 =>
+      ev fr (.forKeys k v d keys body) st2
+
+def stepCall (ev : Frame N → Task N → State N → Res N) (fr : Frame N) (fv self : Value N) (args : List (Value N)) (st : State N) : Res N :=
+  -- vmops.hpp:84-116, function.cpp:22-32
+  match fv with
+  | .fn a =>
+    match st.get? a with
+    | some (.fn params captured body) =>
+      if args.length < params.length then (.err (.script .args "Too few arguments for function"), st)   -- :99
+      else
+        let loc := (params.zip args).foldl (fun d pa => kvSet pa.1 pa.2 d) captured                    -- :104-110
+        let fr2 : Frame N := { locals := (st.alloc (.dict loc)).1, self := (match self with | .empty => .ns | s => s), depth := fr.depth }
+        bindAny (ev fr2 (.expr body) (st.alloc (.dict loc)).2) fun v st2 => (.val .ok v, st2)       -- :112 code dropped
+    | _ => (.err (.internal "call"), st)
+  | .native name =>
+    match isCallbackNative name with
+    | some kind =>
+      if args.isEmpty then (.err tooFew, st) else
+      match self, args.headD .empty with
+      | .arr a, cb =>
+        if !isFunction cb then (.err (.unmodelled "callback is not a function"), st) else
+        match st.arr? a with
+        | some xs =>
+          match kind, xs with
+          | .reduce, [] => (.val .ok .empty, st)
+          | .reduce, x :: r => ev fr (.iter .reduce cb r [x]) st
+          | k, xs => ev fr (.iter k cb xs []) st
+        | none => (.err (.internal "iter"), st)
+      | _, _ => (.err (.unmodelled "self"), st)
+    | none =>
+      match nativePure name self args st with
+      -- natives evaluate no expression: the ghost depth mark is the caller's (stated here instead of re-proved for ~45 natives)
+      | some (r, st') => liftE (r, { st' with maxDepth := st.maxDepth })
+      | none => (.err (.unmodelled ("native " ++ name)), st)
+  | _ => (.err (.internal "call of a non-function"), st)
+
+def stepIter (ev : Frame N → Task N → State N → Res N) (fr : Frame N) (kind : IterKind) (cb : Value N) (items acc : List (Value N)) (st : State N) : Res N :=
+  -- array-script.cpp:121-231
+  match items with
+  | [] =>
+    match kind with
+    | .map | .filter => liftE (newArr st acc.reverse)
+    | .any => (.val .ok (.bool false), st)
+    | .all => (.val .ok (.bool true), st)
+    | .reduce => (.val .ok (acc.headD .empty), st)
+  | x :: rest =>
+    let cargs := match kind with | .reduce => [acc.headD .empty, x] | _ => [x]
+    bindV (ev fr (.call cb .empty cargs) st) fun r st1 =>
+      match kind with
+      | .map => ev fr (.iter kind cb rest (r :: acc)) st1
+      | .filter =>
+        match cbTruth r with
+        | some t => ev fr (.iter kind cb rest (if t then x :: acc else acc)) st1
+        | none => (.err (if r.isObject then .script .tonumber "Can't convert object to a floating point number."
+                         else .unmodelled "callback result to double"), st1)
+      | .any =>
+        match cbTruth r with
+        | some t => if t then (.val .ok (.bool true), st1) else ev fr (.iter kind cb rest acc) st1
+        | none => (.err (if r.isObject then .script .tonumber "Can't convert object to a floating point number."
+                         else .unmodelled "callback result to double"), st1)
+      | .all =>
+        match cbTruth r with
+        | some t => if !t then (.val .ok (.bool false), st1) else ev fr (.iter kind cb rest acc) st1
+        | none => (.err (if r.isObject then .script .tonumber "Can't convert object to a floating point number."
+                         else .unmodelled "callback result to double"), st1)
+      | .reduce => ev fr (.iter kind cb rest [r]) st1
+
+def stepRef (ev : Frame N → Task N → State N → Res N) (fr : Frame N) (e : Expr N) (initDict : Bool) (st : State N) : Res N :=
+  match e with
+  | .var x =>                                                   -- expression.cpp:125-150
+    if (localsGet st fr x).isSome then (.ref (.dict fr.locals) x, st)
+    else if selfUsable fr && hasOwnField st fr.self x then (.ref fr.self x, st)
+    else if systemFunctions.contains x then                     -- FindVarImportRef evaluates the imports: two frames deeper
+      if fr.depth + 2 > depthLimit then (.err stackErr, st) else (.ref .sysns x, st.noteDepth (fr.depth + 2))
+    else if fr.depth + 3 > depthLimit then (.err stackErr, st.noteDepth (min depthLimit (fr.depth + 2)))
+    else if kvHas x st.globals then (.ref .ns x, st.noteDepth (fr.depth + 3))
+    else (.ref fr.self x, st.noteDepth (fr.depth + 3))
+  | .index a b =>                                               -- expression.cpp:751-802
+    let parentRes : Res N :=
+      bindRef (ev fr (.ref a initDict) st)
+        (fun vparent vindex st1 => refParent initDict vparent vindex st1)
+        (fun st1 => bindAny (ev fr (.expr a) st1) fun v st2 => (.val .ok v, st2))     -- :784-785 code ignored
+    bindV parentRes fun p st3 =>
+      bindAny (ev fr (.expr b) st3) fun iv st4 =>           -- :788-789
+        match toStrH st4 iv with
+        | some i => (.ref p i, st4)
+        | none => (.err (.unmodelled "cyclic container to string"), st4)
+  | _ => (.noref, st)                                           -- expression.cpp:66-69
+
+/-- `DoEvaluate` of the node, in the frame and state that `Expression::Evaluate` prepared. -/
+def stepNode (ev : Frame N → Task N → State N → Res N) (fr : Frame N) (e : Expr N) (st : State N) : Res N :=
+  match e with
+  | .null => (.val .ok .empty, st)
+  | .num n => (.val .ok (.num n), st)
+  | .bool b => (.val .ok (.bool b), st)
+  | .str s => (.val .ok (.str s), st)
+  | .var x =>                                                   -- expression.cpp:111-123
+    match localsGet st fr x with
+    | some v => (.val .ok v, st)
+    | none =>
+      if selfUsable fr && hasOwnField st fr.self x then liftE (getField st fr.self x, st)
+      else if systemFunctions.contains x then
+        if fr.depth + 2 > depthLimit then (.err stackErr, st)
+        else (.val .ok (.native ("System#" ++ x)), st.noteDepth (fr.depth + 2))
+      else if fr.depth + 3 > depthLimit then (.err stackErr, st.noteDepth (min depthLimit (fr.depth + 2)))
+      else match kvGet x st.globals with
+        | some v => (.val .ok v, st.noteDepth (fr.depth + 3))
+        | none => (.err (.script .undefvar ("Tried to access undefined script variable '" ++ x ++ "'")), st.noteDepth (fr.depth + 3))
+  | .scope s =>                                                 -- expression.cpp:542-552
+    (.val .ok (match s with | .locals => .dict fr.locals | .this => fr.self | .globals => .ns), st)
+  | .bnot a => bindV (ev fr (.expr a) st) fun v st1 => liftE (bitNot v, st1)
+  | .lnot a => bindV (ev fr (.expr a) st) fun v st1 => (.val .ok (.bool (!truthy st1 v)), st1)
+  | .bin op a b =>                                              -- expression.cpp:209-383
+    bindV (ev fr (.expr a) st) fun va st1 =>
+      bindV (ev fr (.expr b) st1) fun vb st2 => liftE (binop op va vb st2)
+  | .and a b =>                                                 -- expression.cpp:419-432
+    bindV (ev fr (.expr a) st) fun va st1 =>
+      if !truthy st1 va then (.val .ok va, st1)
+      else bindV (ev fr (.expr b) st1) fun vb st2 => (.val .ok vb, st2)
+  | .or a b =>                                                  -- expression.cpp:434-447
+    bindV (ev fr (.expr a) st) fun va st1 =>
+      if truthy st1 va then (.val .ok va, st1)
+      else bindV (ev fr (.expr b) st1) fun vb st2 => (.val .ok vb, st2)
+  | .isIn a b =>                                                -- expression.cpp:385-400 (right operand first)
+    bindV (ev fr (.expr b) st) fun vb st1 =>
+      if vb.isEmpty then (.val .ok (.bool false), st1)
+      else match vb with
+        | .arr ba =>
+          bindV (ev fr (.expr a) st1) fun va st2 =>
+            match arrContains st2 ((st2.arr? ba).getD []) va with
+            | some r => (.val .ok (.bool r), st2)
+            | none => (.err (.unmodelled "deep comparison"), st2)
+        | _ => (.err (.script .inrhs "Invalid right side argument for 'in' operator"), st1)
+  | .notIn a b =>                                               -- expression.cpp:402-417
+    bindV (ev fr (.expr b) st) fun vb st1 =>
+      if vb.isEmpty then (.val .ok (.bool true), st1)
+      else match vb with
+        | .arr ba =>
+          bindV (ev fr (.expr a) st1) fun va st2 =>
+            match arrContains st2 ((st2.arr? ba).getD []) va with
+            | some r => (.val .ok (.bool !r), st2)
+            | none => (.err (.unmodelled "deep comparison"), st2)
+        | _ => (.err (.script .inrhs "Invalid right side argument for 'in' operator"), st1)
+  | .index a b =>                                               -- expression.cpp:740-749
+    bindV (ev fr (.expr a) st) fun va st1 =>
+      bindV (ev fr (.expr b) st1) fun vb st2 =>
+        match toStrH st2 vb with
+        | some i => liftE (getField st2 va i, st2)
+        | none => (.err (.unmodelled "cyclic container to string"), st2)
+  | .call fe args =>                                            -- expression.cpp:449-494
+    let withFn (self vf : Value N) (st1 : State N) : Res N :=
+      match vf with
+      | .typ _ => (.err (.unmodelled "constructor call"), st1)                                          -- :463
+      | .fn _ | .native _ =>
+        bindVals (ev fr (.exprs args []) st1) fun vs st2 => ev fr (.call vf self vs) st2
+      | _ => (.err (.script .notcallable "Argument is not a callable object."), st1)                   -- :476
+    bindRef (ev fr (.ref fe false) st)
+      (fun self index st1 =>
+        match getField st1 self index with
+        | .ok vf => withFn self vf st1
+        | .error e => (.err e, st1))
+      (fun st1 => bindCallee (ev fr (.expr fe) st1) fun vf st2 => withFn .empty vf st2)
+  | .array es =>                                                -- expression.cpp:496-509
+    bindVals (ev fr (.exprs es []) st) fun vs st1 => liftE (newArr st1 vs)
+  | .dict body =>                                               -- expression.cpp:511-540 (not inline)
+    bindV (ev { fr with self := .dict (st.alloc (.dict [])).1 } (.block body .empty) (st.alloc (.dict [])).2) fun _ st2 =>
+      (.val .ok (.dict (st.alloc (.dict [])).1), st2)
+  | .block body => ev fr (.block body .empty) st            -- expression.cpp:511-540 (inline)
+  | .set lhs op rhs =>                                          -- expression.cpp:606-667
+    bindRef (ev fr (.ref lhs true) st)
+      (fun parent index st1 => bindV (ev fr (.expr rhs) st1) fun v st2 => assign parent index op v st2)
+      (fun st1 => (.err (.script .noassign "Expression cannot be assigned to."), st1))
+  | .cond c t fe =>                                             -- expression.cpp:690-701
+    bindV (ev fr (.expr c) st) fun cv st1 =>
+      if truthy st1 cv then ev fr (.expr t) st1
+      else match fe with
+        | some fe => ev fr (.expr fe) st1
+        | none => (.val .ok .empty, st1)
+  | .while c body => ev fr (.whileL c body) st
+  | .for k v e body =>                                          -- expression.cpp:961-970, vmops.hpp:177-234
+    bindV (ev fr (.expr e) st) fun cv st1 =>
+      match cv with
+      | .arr a =>
+        if v != "" then (.err (.script .fortype "Cannot use dictionary iterator for array."), st1)
+        else ev fr (.forArr k a 0 body) st1
+      | .dict d =>
+        if v == "" then (.err (.script .fortype "Cannot use array iterator for dictionary."), st1)
+        else ev fr (.forKeys k v d (((st1.dict? d).getD []).map (·.1)) body) st1
+      | .ns | .sysns => (.err (.unmodelled "for over a namespace"), st1)
+      | _ => (.err (.script .fortype "Invalid type in for expression"), st1)
+  | .func params uses body =>                                   -- expression.cpp:899-902, vmops.hpp:93-116, 258-269
+    let names := sortedNames uses
+    bindVals (ev fr (.exprs (names.map .var) []) st) fun vs st1 =>
+      (.val .ok (.fn (st1.alloc (.fn params (names.zip vs) body)).1), (st1.alloc (.fn params (names.zip vs) body)).2)
+  | .ret a => bindV (ev fr (.expr a) st) fun v st1 => (.val .ret v, st1)     -- expression.cpp:722-728
+  | .brk => (.val .brk .empty, st)
+  | .cont => (.val .cont .empty, st)
+  | .throw a =>                                                 -- expression.cpp:849-855
+    bindV (ev fr (.expr a) st) fun v st1 =>
+      match toStrH st1 v with
+      | some m => (.err (.script .user m), st1)
+      | none => (.err (.unmodelled "cyclic container to string"), st1)
+  | .try a b =>                                                 -- expression.cpp:1055-1066
+    catchScript (ev fr (.expr a) st) fun st1 =>
+      bindV (ev fr (.expr b) st1) fun _ st2 => (.val .ok .empty, st2)
+
+
+
+/-- `Expression::Evaluate` (expression.cpp:39-64). -/
+def stepExpr (ev : Frame N → Task N → State N → Res N) (fr : Frame N) (e : Expr N) (st : State N) : Res N :=
+  if fr.depth + 1 > depthLimit then (.err stackErr, st)         -- scriptframe.cpp:84-85
+  else stepNode ev { fr with depth := fr.depth + 1 } e (st.noteDepth (fr.depth + 1))     -- scriptframe.cpp:87
 
 def eval : Nat → Frame N → Task N → State N → Res N
   | 0, _, _, st => (.err .fuel, st)
   | f + 1, fr, task, st =>
     match task with
-    -- ------------------------------------------------------------------------------------------ lists
-    | .exprs [] acc => (.vals acc.reverse, st)
-    | .exprs (e :: es) acc =>
-      bindV (eval f fr (.expr e) st) fun v st1 => eval f fr (.exprs es (v :: acc)) st1
-    | .block [] last => (.val .ok last, st)
-    | .block (e :: es) _ =>                                         -- expression.cpp:523-527
-      bindV (eval f fr (.expr e) st) fun v st1 => eval f fr (.block es v) st1
-    -- ------------------------------------------------------------------------------------------ loops
-    | .whileL c body =>                                             -- expression.cpp:708-719
-      bindV (eval f fr (.expr c) st) fun cv st1 =>
-        if !truthy st1 cv then (.val .ok .empty, st1)
-        else match eval f fr (.expr body) st1 with
-          | (.val .ret v, st2) => (.val .ret v, st2)
-          | (.val .brk _, st2) => (.val .ok .empty, st2)
-          | (.val _ _, st2) => eval f fr (.whileL c body) st2
-          | r => r
-    | .forArr k a i body =>                                         -- vmops.hpp:185-189
-      match st.arr? a with
-      | none => (.err (.internal "forArr"), st)
-      | some xs =>
-        if i ≥ xs.length then (.val .ok .empty, st)
-        else match eval f fr (.expr body) (localsSet st fr k (xs.getD i .empty)) with
-          | (.val .ret v, st2) => (.val .ret v, st2)
-          | (.val .brk _, st2) => (.val .ok .empty, st2)
-          | (.val _ _, st2) => eval f fr (.forArr k a (i + 1) body) st2
-          | r => r
-    | .forKeys _ _ _ [] _ => (.val .ok .empty, st)
-    | .forKeys k v d (key :: keys) body =>                          -- vmops.hpp:204-209
-      let cur := match st.dict? d with | some kvs => (kvGet key kvs).getD .empty | none => .empty
-      match eval f fr (.expr body) (localsSet (localsSet st fr k (.str key)) fr v cur) with
-      | (.val .ret x, st2) => (.val .ret x, st2)
-      | (.val .brk _, st2) => (.val .ok .empty, st2)
-      | (.val _ _, st2) => eval f fr (.forKeys k v d keys body) st2
-      | r => r
-    -- ------------------------------------------------------------------------------------------ calls
-    | .call fv self args =>                                         -- vmops.hpp:84-116, function.cpp:22-32
-      match fv with
-      | .fn a =>
-        match st.get? a with
-        | some (.fn params captured body) =>
-          if args.length < params.length then (.err (.script .args "Too few arguments for function"), st)   -- :99
-          else
-            let loc := (params.zip args).foldl (fun d pa => kvSet pa.1 pa.2 d) captured                    -- :104-110
-            let (la, st1) := st.alloc (.dict loc)
-            let fr2 : Frame N := { locals := la, self := (match self with | .empty => .ns | s => s), depth := fr.depth }
-            match eval f fr2 (.expr body) st1 with
-            | (.val _ v, st2) => (.val .ok v, st2)                                                          -- :112 code dropped
-            | r => r
-        | _ => (.err (.internal "call"), st)
-      | .native name =>
-        match isCallbackNative name with
-        | some kind =>
-          if args.isEmpty then (.err tooFew, st) else
-          match self, args.headD .empty with
-          | .arr a, cb =>
-            if !isFunction cb then (.err (.unmodelled "callback is not a function"), st) else
-            match st.arr? a with
-            | some xs =>
-              match kind, xs with
-              | .reduce, [] => (.val .ok .empty, st)
-              | .reduce, x :: r => eval f fr (.iter .reduce cb r [x]) st
-              | k, xs => eval f fr (.iter k cb xs []) st
-            | none => (.err (.internal "iter"), st)
-          | _, _ => (.err (.unmodelled "self"), st)
-        | none =>
-          match nativePure name self args st with
-          | some r => liftE r
-          | none => (.err (.unmodelled ("native " ++ name)), st)
-      | _ => (.err (.internal "call of a non-function"), st)
-    | .iter kind cb items acc =>                                    -- array-script.cpp:121-231
-      match items with
-      | [] =>
-        match kind with
-        | .map | .filter => liftE (newArr st acc.reverse)
-        | .any => (.val .ok (.bool false), st)
-        | .all => (.val .ok (.bool true), st)
-        | .reduce => (.val .ok (acc.headD .empty), st)
-      | x :: rest =>
-        let cargs := match kind with | .reduce => [acc.headD .empty, x] | _ => [x]
-        bindV (eval f fr (.call cb .empty cargs) st) fun r st1 =>
-          match kind with
-          | .map => eval f fr (.iter kind cb rest (r :: acc)) st1
-          | .filter =>
-            match cbTruth r with
-            | some t => eval f fr (.iter kind cb rest (if t then x :: acc else acc)) st1
-            | none => (.err (.unmodelled "callback result to double"), st1)
-          | .any =>
-            match cbTruth r with
-            | some t => if t then (.val .ok (.bool true), st1) else eval f fr (.iter kind cb rest acc) st1
-            | none => (.err (.unmodelled "callback result to double"), st1)
-          | .all =>
-            match cbTruth r with
-            | some t => if !t then (.val .ok (.bool false), st1) else eval f fr (.iter kind cb rest acc) st1
-            | none => (.err (.unmodelled "callback result to double"), st1)
-          | .reduce => eval f fr (.iter kind cb rest [r]) st1
-    -- ------------------------------------------------------------------------------------------ references
-    | .ref e initDict =>
-      match e with
-      | .var x =>                                                   -- expression.cpp:125-150
-        if (localsGet st fr x).isSome then (.ref (.dict fr.locals) x, st)
-        else if selfUsable fr && hasOwnField st fr.self x then (.ref fr.self x, st)
-        -- (the imports are looked up here as well; observed on the real evaluator: no frame-depth error arises from this
-        --  lookup at the limit — `dict149` of the deep-nesting stream — so the reference path carries no depth check)
-        else if systemFunctions.contains x then (.ref .sysns x, st)
-        else if kvHas x st.globals then (.ref .ns x, st)
-        else (.ref fr.self x, st)
-      | .index a b =>                                               -- expression.cpp:751-802
-        let parentRes : Res N :=
-          match eval f fr (.ref a initDict) st with
-          | (.ref vparent vindex, st1) =>
-            let init : Except Err (State N) :=
-              if initDict then
-                let has := if vparent.isObject then hasOwnField st1 vparent vindex else true
-                match (if has then getField st1 vparent vindex else .ok .empty) with
-                | .error e => .error e
-                | .ok .empty =>
-                  let (d, st2) := st1.alloc (.dict [])
-                  setField st2 vparent vindex (.dict d)
-                | .ok _ => .ok st1
-              else .ok st1
-            match init with
-            | .error e => (.err e, st1)
-            | .ok st2 =>
-              match getField st2 vparent vindex with
-              | .ok p => (.val .ok p, st2)
-              | .error e => (.err e, st2)
-          | (.noref, st1) =>
-            match eval f fr (.expr a) st1 with
-            | (.val _ v, st2) => (.val .ok v, st2)                  -- :784-785 code ignored
-            | r => r
-          | r => r
-        bindV parentRes fun p st3 =>
-          match eval f fr (.expr b) st3 with
-          | (.val _ iv, st4) =>                                     -- :788-789
-            match iv.toStr? with
-            | some i => (.ref p i, st4)
-            | none => (.err (.unmodelled "container to string"), st4)
-          | r => r
-      | _ => (.noref, st)                                           -- expression.cpp:66-69
-    -- ------------------------------------------------------------------------------------------ expressions
-    | .expr e =>
-      if fr.depth + 1 > depthLimit then (.err stackErr, st)         -- scriptframe.cpp:84-85
-      else
-      let fr : Frame N := { fr with depth := fr.depth + 1 }         -- scriptframe.cpp:87
-      let st := st.noteDepth fr.depth
-      match e with
-      | .null => (.val .ok .empty, st)
-      | .num n => (.val .ok (.num n), st)
-      | .bool b => (.val .ok (.bool b), st)
-      | .str s => (.val .ok (.str s), st)
-      | .var x =>                                                   -- expression.cpp:111-123
-        match localsGet st fr x with
-        | some v => (.val .ok v, st)
-        | none =>
-          if selfUsable fr && hasOwnField st fr.self x then liftE (getField st fr.self x, st)
-          else if systemFunctions.contains x then
-            if fr.depth + 2 > depthLimit then (.err stackErr, st)
-            else (.val .ok (.native ("System#" ++ x)), st.noteDepth (fr.depth + 2))
-          else if fr.depth + 3 > depthLimit then (.err stackErr, st.noteDepth (min depthLimit (fr.depth + 2)))
-          else match kvGet x st.globals with
-            | some v => (.val .ok v, st.noteDepth (fr.depth + 3))
-            | none => (.err (.script .undefvar ("Tried to access undefined script variable '" ++ x ++ "'")), st.noteDepth (fr.depth + 3))
-      | .scope s =>                                                 -- expression.cpp:542-552
-        (.val .ok (match s with | .locals => .dict fr.locals | .this => fr.self | .globals => .ns), st)
-      | .bnot a => bindV (eval f fr (.expr a) st) fun v st1 => liftE (bitNot v, st1)
-      | .lnot a => bindV (eval f fr (.expr a) st) fun v st1 => (.val .ok (.bool (!truthy st1 v)), st1)
-      | .bin op a b =>                                              -- expression.cpp:209-383
-        bindV (eval f fr (.expr a) st) fun va st1 =>
-          bindV (eval f fr (.expr b) st1) fun vb st2 => liftE (binop op va vb st2)
-      | .and a b =>                                                 -- expression.cpp:419-432
-        bindV (eval f fr (.expr a) st) fun va st1 =>
-          if !truthy st1 va then (.val .ok va, st1)
-          else bindV (eval f fr (.expr b) st1) fun vb st2 => (.val .ok vb, st2)
-      | .or a b =>                                                  -- expression.cpp:434-447
-        bindV (eval f fr (.expr a) st) fun va st1 =>
-          if truthy st1 va then (.val .ok va, st1)
-          else bindV (eval f fr (.expr b) st1) fun vb st2 => (.val .ok vb, st2)
-      | .isIn a b =>                                                -- expression.cpp:385-400 (right operand first)
-        bindV (eval f fr (.expr b) st) fun vb st1 =>
-          if vb.isEmpty then (.val .ok (.bool false), st1)
-          else match vb with
-            | .arr ba =>
-              bindV (eval f fr (.expr a) st1) fun va st2 =>
-                match arrContains st2 ((st2.arr? ba).getD []) va with
-                | some r => (.val .ok (.bool r), st2)
-                | none => (.err (.unmodelled "deep comparison"), st2)
-            | _ => (.err (.script .inrhs "Invalid right side argument for 'in' operator"), st1)
-      | .notIn a b =>                                               -- expression.cpp:402-417
-        bindV (eval f fr (.expr b) st) fun vb st1 =>
-          if vb.isEmpty then (.val .ok (.bool true), st1)
-          else match vb with
-            | .arr ba =>
-              bindV (eval f fr (.expr a) st1) fun va st2 =>
-                match arrContains st2 ((st2.arr? ba).getD []) va with
-                | some r => (.val .ok (.bool !r), st2)
-                | none => (.err (.unmodelled "deep comparison"), st2)
-            | _ => (.err (.script .inrhs "Invalid right side argument for 'in' operator"), st1)
-      | .index a b =>                                               -- expression.cpp:740-749
-        bindV (eval f fr (.expr a) st) fun va st1 =>
-          bindV (eval f fr (.expr b) st1) fun vb st2 =>
-            match vb.toStr? with
-            | some i => liftE (getField st2 va i, st2)
-            | none => (.err (.unmodelled "container to string"), st2)
-      | .call fe args =>                                            -- expression.cpp:449-494
-        let fres : Except Err (Value N × Value N) × State N :=
-          match eval f fr (.ref fe false) st with
-          | (.ref self index, st1) =>
-            match getField st1 self index with
-            | .ok vf => (.ok (self, vf), st1)
-            | .error e => (.error e, st1)
-          | (.noref, st1) =>
-            match eval f fr (.expr fe) st1 with
-            | (.val .ok vf, st2) => (.ok (.empty, vf), st2)
-            | (.val _ _, st2) => (.error (.unmodelled "flow control in callee position"), st2)
-            | (.err e, st2) => (.error e, st2)
-            | (_, st2) => (.error (.internal "call/eval"), st2)
-          | (.err e, st1) => (.error e, st1)
-          | (_, st1) => (.error (.internal "call/ref"), st1)
-        match fres with
-        | (.error e, st1) => (.err e, st1)
-        | (.ok (self, vf), st1) =>
-          match vf with
-          | .typ _ => (.err (.unmodelled "constructor call"), st1)                                          -- :463
-          | .fn _ | .native _ =>
-            match eval f fr (.exprs args []) st1 with
-            | (.vals vs, st2) => eval f fr (.call vf self vs) st2
-            | r => r
-          | _ => (.err (.script .notcallable "Argument is not a callable object."), st1)                   -- :476
-      | .array es =>                                                -- expression.cpp:496-509
-        match eval f fr (.exprs es []) st with
-        | (.vals vs, st1) => liftE (newArr st1 vs)
-        | r => r
-      | .dict body =>                                               -- expression.cpp:511-540 (not inline)
-        let (d, st1) := st.alloc (.dict [])
-        bindV (eval f { fr with self := .dict d } (.block body .empty) st1) fun _ st2 => (.val .ok (.dict d), st2)
-      | .block body => eval f fr (.block body .empty) st            -- expression.cpp:511-540 (inline)
-      | .set lhs op rhs =>                                          -- expression.cpp:606-667
-        match eval f fr (.ref lhs true) st with
-        | (.noref, st1) => (.err (.script .noassign "Expression cannot be assigned to."), st1)
-        | (.ref parent index, st1) =>
-          bindV (eval f fr (.expr rhs) st1) fun v st2 =>
-            let newv : Except Err (Value N) × State N :=
-              match op.bin with
-              | none => (.ok v, st2)
-              | some bop =>
-                match getField st2 parent index with
-                | .ok old => binop bop old v st2
-                | .error e => (.error e, st2)
-            match newv with
-            | (.error e, st3) => (.err e, st3)
-            | (.ok nv, st3) =>
-              match setField st3 parent index nv with
-              | .ok st4 => (.val .ok .empty, st4)
-              | .error e => (.err e, st3)
-        | r => r
-      | .cond c t fe =>                                             -- expression.cpp:690-701
-        bindV (eval f fr (.expr c) st) fun cv st1 =>
-          if truthy st1 cv then eval f fr (.expr t) st1
-          else match fe with
-            | some fe => eval f fr (.expr fe) st1
-            | none => (.val .ok .empty, st1)
-      | .while c body => eval f fr (.whileL c body) st
-      | .for k v e body =>                                          -- expression.cpp:961-970, vmops.hpp:177-234
-        bindV (eval f fr (.expr e) st) fun cv st1 =>
-          match cv with
-          | .arr a =>
-            if v != "" then (.err (.script .fortype "Cannot use dictionary iterator for array."), st1)
-            else eval f fr (.forArr k a 0 body) st1
-          | .dict d =>
-            if v == "" then (.err (.script .fortype "Cannot use array iterator for dictionary."), st1)
-            else eval f fr (.forKeys k v d (((st1.dict? d).getD []).map (·.1)) body) st1
-          | .ns | .sysns => (.err (.unmodelled "for over a namespace"), st1)
-          | _ => (.err (.script .fortype "Invalid type in for expression"), st1)
-      | .func params uses body =>                                   -- expression.cpp:899-902, vmops.hpp:93-116, 258-269
-        let names := sortedNames uses
-        match eval f fr (.exprs (names.map .var) []) st with
-        | (.vals vs, st1) =>
-          let (a, st2) := st1.alloc (.fn params (names.zip vs) body)
-          (.val .ok (.fn a), st2)
-        | r => r
-      | .ret a => bindV (eval f fr (.expr a) st) fun v st1 => (.val .ret v, st1)     -- expression.cpp:722-728
-      | .brk => (.val .brk .empty, st)
-      | .cont => (.val .cont .empty, st)
-      | .throw a =>                                                 -- expression.cpp:849-855
-        bindV (eval f fr (.expr a) st) fun v st1 =>
-          match v.toStr? with
-          | some m => (.err (.script .user m), st1)
-          | none => (.err (.unmodelled "container to string"), st1)
-      | .try a b =>                                                 -- expression.cpp:1055-1066
-        match eval f fr (.expr a) st with
-        | (.val .ok _, st1) => (.val .ok .empty, st1)
-        | (.err (.script _ _), st1) =>
-          bindV (eval f fr (.expr b) st1) fun _ st2 => (.val .ok .empty, st2)
-        | r => r
+    | .exprs es acc => stepExprs (eval f) fr es acc st
+    | .block es last => stepBlock (eval f) fr es last st
+    | .whileL c body => stepWhile (eval f) fr c body st
+    | .forArr k a i body => stepForArr (eval f) fr k a i body st
+    | .forKeys k v d keys body => stepForKeys (eval f) fr k v d keys body st
+    | .call fv self args => stepCall (eval f) fr fv self args st
+    | .iter kind cb items acc => stepIter (eval f) fr kind cb items acc st
+    | .ref e initDict => stepRef (eval f) fr e initDict st
+    | .expr e => stepExpr (eval f) fr e st
+
+/-- `BindToScope` (expression.cpp:809-847) applied by the parser to the assignment targets of a dictionary literal
+    (config_parser.yy:1027-1033, ScopeThis), of `var` (ScopeLocal): a variable or string literal becomes `scope[name]`,
+    an indexer chain is bound at its root. -/
+def bindTarget (sc : Scope) : Nat → Expr N → Expr N
+  | 0, e => e
+  | f + 1, e =>
+    match e with
+    | .index a b => .index (bindTarget sc f a) b
+    | .var x => .index (.scope sc) (.str x)
+    | .str s => .index (.scope sc) (.str s)
+    | e => e
+
+/-- the statements of a dictionary literal after `BindToScope(expr, ScopeThis)`: only direct assignments are rewritten. -/
+def bindDictBody (body : List (Expr N)) : List (Expr N) :=
+  body.map fun e => match e with
+    | .set lhs op rhs => .set (bindTarget .this 64 lhs) op rhs
+    | e => e
 
 /-- A fresh `ScriptFrame frame(true)`: empty locals, `this` = globals, depth 0. -/
 def initState : State N := { heap := #[.dict []], globals := [], maxDepth := 0 }
